@@ -177,6 +177,13 @@ def decode_one(d, model):
         return {"__float__": str(model.eval(d[1], model_completion=True))}
     if kind == "const":
         return d[1]
+    if kind in ("stream", "socket"):
+        n = max(0, min(model.eval(zint(d[2]), model_completion=True).as_long(), 1 << 16))
+        bs = bytes(model.eval(d[1](k), model_completion=True).as_long() % 256 for k in range(n))
+        out = {"data": bs, "pos": model.eval(zint(d[3]), model_completion=True).as_long()}
+        if kind == "stream":
+            out["style"] = d[4]
+        return out
     if kind == "obj":
         return {k: decode_one(v, model) for k, v in d[1].items()}
     if kind == "list":
@@ -418,8 +425,16 @@ def apply_contract(ex, contract: Contract, fobj, args, kwargs, constructing=None
                 if isinstance(n, ast.Name) and n.id.startswith("final_") and n.id not in cfr.env:
                     cfr.env[n.id] = ex.bm.loops.fresh("int", n.id)  # existential witness of the callee
         rest = []
-        for lab, text in contract.ensures:  # pass 1: clauses that define result / fields (`x == E`)
-            if not bind_clause(ex, text, cfr):
+        bound = set()
+        for lab, text in contract.ensures:  # pass 1: clauses that define result / fields (`x == E`); first one wins
+            tgt = bind_target(text)
+            if tgt is not None and tgt in bound:
+                rest.append(text)
+                continue
+            if bind_clause(ex, text, cfr):
+                if tgt is not None:
+                    bound.add(tgt)
+            else:
                 rest.append(text)
         for text in rest:  # pass 2: everything else is assumed
             v = _eval_clause(ex, text, cfr)
@@ -490,6 +505,15 @@ def apply_modifies_havoc(ex, contract, cfr):
         except Unsupported:
             new = cur
         ex.bm.set_attr(obj, attr, new, direct=True)
+
+
+def bind_target(text):
+    node = parse_expr(text)
+    if isinstance(node, ast.Call) and isinstance(node.func, ast.Name) and node.func.id == "implies" and len(node.args) == 2:
+        node = node.args[1]
+    if isinstance(node, ast.Compare) and len(node.ops) == 1 and isinstance(node.ops[0], (ast.Eq, ast.Is)):
+        return ast.unparse(node.left)
+    return None
 
 
 def bind_clause(ex, text, cfr):
